@@ -249,6 +249,49 @@ def r5_check_values(ctx, prog):
                             file=f['file'], line=c['l'])
 
 
+BLOCK = {'CKM_AES_CBC': 16, 'CKM_AES_CBC_PAD': 16, 'CKM_DES3_CBC': 8, 'CKM_DES3_CBC_PAD': 8}
+
+
+def r6_caller_iv(ctx, prog):
+    r = ctx.rule('C13.R6', 'CBC wrapping and unwrapping run under the caller\'s IV: the IV handed to the cipher has the block size and is copied from the mechanism parameter', floor=4, engine='E8 finite-domain')
+    for q, init in (('SoftHSM::WrapKeySym', 'encryptInit'), ('SoftHSM::UnwrapKeySym', 'decryptInit')):
+        f = prog.fn(q)
+        ctx.analysed(f)
+        pm = param_name(f, 0)
+        accepted = set()
+        for n in walk(f['body']):
+            if n.get('k') == 'Switch' and canon(n['c']).endswith('mechanism'):
+                for labels, body in tables.switch_cases(n):
+                    accepted |= {l for l in labels if l in BLOCK}
+        for mech in sorted(accepted):
+            def trig(e, st):
+                return (init, e['l']) if e.get('k') == 'Call' and short(e.get('callee')) == init else None
+            sf = SiteFacts(f, prog, trigger=trig, cenv={'%s.mechanism' % pm: macro(prog, mech), '%s->mechanism' % pm: macro(prog, mech)}).go()
+            r.paths += sf.paths_returned
+            site = '%s under %s' % (init, mech)
+            hits = [(line, h) for (_, line), hs in sf.sites.items() for h in hs]
+            if not hits:
+                r.ok(q, site, 'the cipher is never started for this mechanism here', file=f['file'], line=f['line'])
+                continue
+            bad = None
+            for line, h in hits:
+                c = [c for c in calls(f['body'], short=init) if c['l'] == line][0]
+                ivarg = canon(c['args'][2]) if len(c.get('args', [])) > 2 else None
+                sz = h['env'].get('size(%s)' % ivarg)
+                if sz is not None and sz in h['env']:
+                    sz = h['env'][sz]
+                szv = h['env'].get(str(sz), sz)
+                if str(szv) != str(BLOCK[mech]):
+                    bad = (line, 'the IV %s given to %s has size %s (block size %d)' % (ivarg, init, szv, BLOCK[mech]), h['path'])
+            copies = [c for c in calls(f['body'], short='memcpy') if len(c.get('args', [])) == 3 and 'pParameter' in canon(c['args'][1]) and 'iv' in canon(c['args'][0])]
+            if bad:
+                r.violation(q, site, bad[1] + ': the cipher falls back to an all-zero IV and the caller\'s IV is ignored — the blob is not CBC under the IV the application supplied', file=f['file'], line=bad[0], path=bad[2])
+            elif not copies:
+                r.violation(q, site, 'no copy of the mechanism parameter into the IV was found', file=f['file'], line=f['line'])
+            else:
+                r.ok(q, site, 'IV of %d bytes copied from pParameter' % BLOCK[mech], file=f['file'], line=hits[0][0])
+
+
 def run(ctx):
     po = ctx.prog('ossl-file')
     pb = ctx.prog('botan-file')
@@ -257,9 +300,12 @@ def run(ctx):
     r3_cipher_tables(ctx, po, pb)
     r4_truncation(ctx, po)
     r5_check_values(ctx, po)
+    r6_caller_iv(ctx, po)
 
 
 MUTANTS = [
+    dict(name='wrap-aes-cbc-blocksize-zero', rule='C13.R6', file='src/lib/SoftHSM.cpp', after='CK_RV SoftHSM::WrapKeySym',
+         old='\t\tcase CKM_AES_CBC:\n\t\t\tblocksize = 16;\n', new='\t\tcase CKM_AES_CBC:\n'),
     dict(name='unwrap-creates-despite-failure', rule='C13.R1', file='src/lib/SoftHSM.cpp', after='CK_RV SoftHSM::C_UnwrapKey',
          old='\t\trv = UnwrapKeySym(pMechanism, wrapped, token, unwrapKey, keydata);', new='\t\t(void) UnwrapKeySym(pMechanism, wrapped, token, unwrapKey, keydata);'),
     dict(name='wrap-template-mismatch-ignored', rule='C13.R2', file='src/lib/SoftHSM.cpp', after='// Verify the wrap template attribute',
